@@ -78,6 +78,40 @@ func (l *Lifter) LiftBR(fd *ast.FuncDecl) []Item {
 	return l.brBlock(fd.Body.List, cur, counts, true)
 }
 
+// RemainingBelow matches the two spellings of "fewer than E bytes remain":
+// len(buf[at:]) < E and len(buf)-at < E. Purely syntactic.
+func RemainingBelow(cond ast.Expr) (bound ast.Expr, ok bool) {
+	b, isBin := unparen(cond).(*ast.BinaryExpr)
+	if !isBin || b.Op != token.LSS {
+		return nil, false
+	}
+	isLenOf := func(e ast.Expr) (ast.Expr, bool) {
+		c, isC := unparen(e).(*ast.CallExpr)
+		if !isC || len(c.Args) != 1 {
+			return nil, false
+		}
+		if id, isId := unparen(c.Fun).(*ast.Ident); !isId || id.Name != "len" {
+			return nil, false
+		}
+		return unparen(c.Args[0]), true
+	}
+	named := func(e ast.Expr, n string) bool {
+		id, isId := unparen(e).(*ast.Ident)
+		return isId && id.Name == n
+	}
+	if arg, isLen := isLenOf(b.X); isLen {
+		if se, isS := arg.(*ast.SliceExpr); isS && named(se.X, "buf") && se.High == nil && se.Low != nil && named(se.Low, "at") {
+			return b.Y, true
+		}
+	}
+	if sub, isSub := unparen(b.X).(*ast.BinaryExpr); isSub && sub.Op == token.SUB && named(sub.Y, "at") {
+		if arg, isLen := isLenOf(sub.X); isLen && named(arg, "buf") {
+			return b.Y, true
+		}
+	}
+	return nil, false
+}
+
 // lenCheck matches  if len(buf[at:]) < E { return io.ErrUnexpectedEOF }  and
 // if len(buf) == 0 / < E { return <err> }.
 func (l *Lifter) lenCheck(s ast.Stmt) (rel string, e Lin, ok bool) {
@@ -96,7 +130,18 @@ func (l *Lifter) lenCheck(s ast.Stmt) (rel string, e Lin, ok bool) {
 	if !isBin {
 		return
 	}
-	c, isCall := unparen(b.X).(*ast.CallExpr)
+	// the same test written on the remaining length: len(buf)-at < E
+	remaining := false
+	lhs := unparen(b.X)
+	if sub, isSub := lhs.(*ast.BinaryExpr); isSub && sub.Op == token.SUB && l.isIdent(unparen(sub.Y), "at") {
+		if lc, isC := unparen(sub.X).(*ast.CallExpr); isC && len(lc.Args) == 1 && l.isIdent(unparen(lc.Args[0]), "buf") {
+			if id, isId := unparen(lc.Fun).(*ast.Ident); isId && id.Name == "len" {
+				remaining = true
+				lhs = lc
+			}
+		}
+	}
+	c, isCall := lhs.(*ast.CallExpr)
 	if !isCall || len(c.Args) != 1 {
 		return
 	}
@@ -127,6 +172,9 @@ func (l *Lifter) lenCheck(s ast.Stmt) (rel string, e Lin, ok bool) {
 		return
 	}
 	arg := unparen(c.Args[0])
+	if remaining {
+		return "at", bound, true
+	}
 	if l.isIdent(arg, "buf") {
 		return "buf", bound, true
 	}
